@@ -1,5 +1,6 @@
 """C03: a writer stopped at any point leaves a file that reopens to a correct prefix."""
 import os, sys
+import importlib
 import vlib, proglib, crashlib
 
 PROP_FILES = ["Properties_C03_shape.v", "Properties_C03_open.v"]
@@ -229,6 +230,11 @@ def run(ctx):
                               "crash point: %d complete backend writes + %d bytes of the next (%s)\n%s\n\nscript:\n%s\n\nreplay: echo '<script>' | /verif/build/plain/jlsrun prog /tmp\n"
                               "implementation (after image): %s\n" % (k, j, kind, why, script, ";".join(r["out"])[:1500]),
                               "crash image (k=%d, j=%d, %s): %s" % (k, j, kind, why), sig=sig)
+    # byte-exact repair-on-open model (coq/RepairModel.v, extracted) vs the implementation: return code, complete backend log and the
+    # resulting file of two consecutive opens per image; defect classes carry signatures, everything else is a violation
+    RP = importlib.import_module("RP")
+    nviol += RP.run_rp(ctx, n=(4 if ctx.tier == "quick" else 30), per_program=(40 if ctx.tier == "quick" else 120), cycle=False)   # the crafted cyclic-link file (forged CRC) is outside the property: no crash produces it; see DESIGN.md
+    dist.update({"rp_" + k: v for k, v in ctx.extra.get("distribution", {}).items()})
     ctx.extra["distribution"] = dist
     ctx.extra["statistics_requests_compared"] = STATS_COMPARED[0]
     ctx.cov["rule"] = ("case = (writer program, crash point): programs with 1-3 FSR signals of any type, annotations, UTC, user data, omission; the backend write log is "
